@@ -45,6 +45,10 @@ ASSUMPTIONS = [
     "entry age is bounded from below by issue time minus the instant the served value stopped being current in the backing store "
     "(no private cached_at is read), so a hard-TTL overrun smaller than the gap between fetch and overwrite is not visible",
     "eviction policies are observed through a deep copy; TTLEviction is given the simulation clock as clock_func",
+    "invalidate(k)/invalidate_all() on a dirty key of a write-back CachedStore is an explicit request to drop unflushed data "
+    "(documented contract; MultiTierCache.put relies on it): the harness skips such an invalidation and counts it",
+    "a stale read / final loss is labelled with the earliest unrefuted explanatory fact on the key; a second defect on the same "
+    "key behind an earlier one would carry the earlier label",
 ]
 MUST_OBSERVE = ["reads_checked", "capacity_checks", "policy_drains", "ttl_reads_checked", "final_keys_checked"]
 
@@ -113,7 +117,6 @@ class _Ctx:
         self.remaining = nclients
         self.finalizer = None
         self.warmer = None
-        self.stopped = []
 
 
 def make_client_classes():
